@@ -1090,6 +1090,9 @@ def atom_is_real(a):
         return a[1] in REAL_FNS and all(is_real(x) for x in a[2:] if isinstance(x, Poly))
     if t == "I":
         return len(a) >= 3 and isinstance(a[1], Poly) and _k_parity(a[1]) == 0
+    if t in ("Sum", "PSum", "RSum", "Strided", "dc"):
+        # sums / samples of a real quantity are real
+        return isinstance(a[1], Poly) and is_real(a[1]) if t != "dc" else atom_is_real(a[1])
     if t in ("Re", "Im", "Mean", "Std", "MaxAbs", "Min", "Max", "Idc", "x", "x1", "k", "k1", "s", "num", "ind", "mask", "idx", "draw"):
         return True
     return False
